@@ -516,7 +516,10 @@ namespace adept {
   Stack::initialize_gradients()
   {
     if (max_gradient_ > 0) {
-      if (n_allocated_gradients_ < max_gradient_) {
+      // Keep the allocated length equal to the number of gradients
+      // initialized so that set_gradients and get_gradients can
+      // detect indices registered after this point
+      if (n_allocated_gradients_ != max_gradient_) {
 	if (gradient_) {
 	  delete[] gradient_;
 	}
@@ -534,6 +537,7 @@ namespace adept {
   Stack::initialize_gradients()
   {
     gradient_.resize(max_gradient_+10, 0.0);
+    n_allocated_gradients_ = max_gradient_;
       gradients_initialized_ = true;
   }
 #endif
